@@ -41,6 +41,17 @@ type WTScen struct {
 	ReadChunk  int       `json:"readChunk,omitempty"`
 	ExtraReads int       `json:"extraReads,omitempty"` // NextReader calls after the first error (sticky-error clause)
 	Expect     []WTExp   `json:"expect,omitempty"`     // dec: the messages the stream encodes
+	// the stream hands out its last bytes together with io.EOF
+	EOFWithData bool `json:"eofWithData,omitempty"`
+	// the reading application uses the ReadMessage helper instead of NextReader + Read
+	UseReadMessage bool `json:"readMessage,omitempty"`
+	// rt: the writer's stream fails: the write that would take the total to WFailAt bytes accepts the bytes before
+	// that and returns an error (0: never); transient with WFailOnce (a deadline: the stream itself goes on)
+	WFailAt   int64  `json:"wfailAt,omitempty"`
+	WFailKind string `json:"wfailKind,omitempty"`
+	WFailOnce bool   `json:"wfailOnce,omitempty"`
+	// rt: a second connection, written by its own task, that shares the buffer pool with the first
+	Peer []WTMsgOp `json:"peer,omitempty"`
 }
 
 type WTMsgOp struct {
@@ -68,13 +79,13 @@ type simStream struct {
 
 func (s *simStream) Read(b []byte) (int, error) { return s.in.read(b) }
 func (s *simStream) Write(b []byte) (int, error) {
+	n, err := s.out.write(b)
 	s.mu.Lock()
 	s.nWrites++
 	if s.capture != nil {
-		s.capture.Write(b)
+		s.capture.Write(b[:n]) // what the stream accepted
 	}
 	s.mu.Unlock()
-	n, err := s.out.write(b)
 	if simrt.IsTask() {
 		simrt.Yield(-5)
 	}
@@ -132,6 +143,11 @@ type wtFam struct {
 	writerDone bool
 	panicMsg   string
 	staleN     int
+	wire2      bytes.Buffer // the second connection's wire (shared pool)
+	written2   []ref.WTMsg
+	wErr2      []string
+	writer2Run bool
+	wOK        []bool // per message of the first connection: the write call returned nil
 }
 
 func init() {
@@ -189,6 +205,14 @@ func (f *wtFam) setup(w *World) {
 		}
 		a2b.failOnce = sc.FailOnce
 	}
+	a2b.eofWithData = sc.EOFWithData
+	if sc.WFailAt > 0 {
+		a2b.wfailAt, a2b.wfailOnce = sc.WFailAt, sc.WFailOnce
+		a2b.wfailErr = errReset
+		if sc.WFailKind == "timeout" {
+			a2b.wfailErr = errTimeout
+		}
+	}
 	wstream := &simStream{in: b2a, out: a2b, capture: &f.wire}
 	rstream := &simStream{in: a2b, out: b2a}
 	var pool webtrans.BufferPool
@@ -209,7 +233,9 @@ func (f *wtFam) setup(w *World) {
 				}
 				data := wtPayload(i+1, m.Len)
 				f.written = append(f.written, ref.WTMsg{Binary: m.Binary, Data: data})
-				if err := f.writeOne(wconn, m, data); err != nil {
+				err := f.writeOne(wconn, m, data)
+				f.wOK = append(f.wOK, err == nil)
+				if err != nil {
 					f.wErr = append(f.wErr, fmt.Sprintf("message %d (%s, %d bytes): %v", i, m.Path, m.Len, err))
 				}
 			}
@@ -233,6 +259,24 @@ func (f *wtFam) setup(w *World) {
 			a2b.closeWrite()
 		}
 	})
+	if sc.Mode == "rt" && len(sc.Peer) > 0 {
+		// a second connection on the same buffer pool, with a stream and a writer task of its own: the two
+		// writers interleave statement by statement inside the framing code
+		f.writer2Run = true
+		x2y := newHalf()
+		w2 := &simStream{in: newHalf(), out: x2y, capture: &f.wire2}
+		conn2 := webtrans.NewConn(f.sess, w2, sc.WriterSrv, sc.ReadBuf, sc.WriteBuf, pool, nil, nil)
+		simrt.GoActor("w-writer2", func() {
+			defer func() { f.writer2Run = false }()
+			for i, m := range sc.Peer {
+				data := wtPayload(1000+i, m.Len)
+				f.written2 = append(f.written2, ref.WTMsg{Binary: m.Binary, Data: data})
+				if err := f.writeOne(conn2, m, data); err != nil {
+					f.wErr2 = append(f.wErr2, fmt.Sprintf("peer message %d (%s, %d bytes): %v", i, m.Path, m.Len, err))
+				}
+			}
+		})
+	}
 	simrt.GoActor("r-reader", func() {
 		defer func() {
 			f.readerDone = true
@@ -247,7 +291,7 @@ func (f *wtFam) setup(w *World) {
 		f.readAll(w, rconn, sc)
 	})
 	simrt.GoActor("z-end", func() {
-		simrt.Block(func() bool { return f.readerDone && f.writerDone })
+		simrt.Block(func() bool { return f.readerDone && f.writerDone && !f.writer2Run })
 		select {
 		case <-f.sess.Context().Done():
 			f.sessClosed = true
@@ -364,8 +408,21 @@ func (f *wtFam) readAll(w *World, c *webtrans.Conn, sc *WTScen) {
 	extra := -1
 	var prev io.Reader
 	for i := 0; ; i++ {
-		mt, r, err := c.NextReader()
-		if err == nil && prev != nil && sc.StaleRead {
+		var mt int
+		var r io.Reader
+		var err error
+		var whole []byte
+		var wholeErr error
+		if sc.UseReadMessage {
+			// the one-call helper: a nil slice means the failure was NextReader's
+			mt, whole, wholeErr = c.ReadMessage()
+			if whole == nil && wholeErr != nil {
+				err = wholeErr
+			}
+		} else {
+			mt, r, err = c.NextReader()
+		}
+		if err == nil && prev != nil && sc.StaleRead && !sc.UseReadMessage {
 			// a reader of an earlier message must not hand out anything of the current one
 			sb := make([]byte, 16)
 			if n, _ := prev.Read(sb); n > 0 {
@@ -390,6 +447,18 @@ func (f *wtFam) readAll(w *World, c *webtrans.Conn, sc *WTScen) {
 			w.rec("", "next-ok-after-error", "", int64(i))
 		}
 		g := wtGot{Binary: mt == webtrans.BinaryMessage, Declared: -1}
+		if sc.UseReadMessage {
+			g.Data = whole
+			if wholeErr != nil {
+				g.Err = wholeErr.Error()
+			}
+			f.got = append(f.got, g)
+			w.recx(Ev{Kind: "wt-msg", N: int64(len(g.Data)), S: fmt.Sprintf("binary=%v err=%q (ReadMessage)", g.Binary, g.Err)})
+			if len(f.got) > 100000 {
+				return
+			}
+			continue
+		}
 		want := -1
 		if len(sc.Consume) > 0 {
 			want = sc.Consume[i%len(sc.Consume)]
@@ -511,10 +580,44 @@ func (f *wtFam) finish(w *World, res *Result) {
 		for _, m := range f.written {
 			want = ref.AppendWTFrame(want, m)
 		}
-		for _, e := range f.wErr {
-			l13.add("write-succeeds", role, "write failed on a healthy stream: "+e)
+		if sc.WFailAt == 0 {
+			for _, e := range f.wErr {
+				l13.add("write-succeeds", role, "write failed on a healthy stream: "+e)
+			}
+		} else {
+			// the writer's stream failed in the middle: whatever the connection still emits, the wire stays a
+			// sequence of whole frames followed by at most the beginning of one more (a later message written into
+			// the middle of a cut-off frame is no frame of the format), and a write reported as successful is on
+			// the wire in full
+			if !bytes.HasPrefix(want, wire) {
+				l14.add("one-frame-per-message", "bytes-after-a-cut-off-frame", fmt.Sprintf("the stream failed after %d bytes (%s); the wire (%d bytes) is not a prefix of the frames of the %d messages written: bytes were emitted behind a cut-off frame", sc.WFailAt-1, sc.WFailKind, len(wire), len(f.written)))
+			}
+			end := 0
+			for i, m := range f.written {
+				end += len(ref.AppendWTFrame(nil, m))
+				if i < len(f.wOK) && f.wOK[i] && len(wire) < end {
+					l14.add("one-frame-per-message", "reported-written-but-not-on-the-wire", fmt.Sprintf("message %d (%s) was reported as written but the wire holds only %d of the %d bytes up to the end of its frame", i, sc.Msgs[i].Path, len(wire), end))
+					break
+				}
+			}
 		}
-		if len(f.wErr) == 0 && !bytes.Equal(wire, want) {
+		// the second connection (shared buffer pool): its wire is its own messages, one frame each
+		if len(sc.Peer) > 0 && len(f.wErr2) == 0 {
+			var want2 []byte
+			for _, m := range f.written2 {
+				want2 = ref.AppendWTFrame(want2, m)
+			}
+			if !bytes.Equal(f.wire2.Bytes(), want2) {
+				l14.add("one-frame-per-message", "shared-buffer-pool", fmt.Sprintf("two connections sharing one buffer pool: the second connection's wire (%d bytes) differs from the frames of its %d messages (%d bytes)", f.wire2.Len(), len(f.written2), len(want2)))
+				l13.add("round-trip", "shared-buffer-pool", fmt.Sprintf("two connections sharing one buffer pool: what the second connection put on the wire does not decode to its %d messages", len(f.written2)))
+			}
+		}
+		for _, e := range f.wErr2 {
+			l13.add("write-succeeds", role+"/shared-buffer-pool", "write failed on a healthy stream: "+e)
+		}
+		if len(f.wErr) == 0 && !bytes.Equal(wire, want) && len(sc.Peer) > 0 {
+			l14.add("one-frame-per-message", "shared-buffer-pool", fmt.Sprintf("two connections sharing one buffer pool: the first connection's wire (%d bytes) differs from the frames of its %d messages (%d bytes)", len(wire), len(f.written), len(want)))
+		} else if len(f.wErr) == 0 && !bytes.Equal(wire, want) {
 			// locate the first message whose frame differs
 			dec, _, _ := ref.DecodeWTStream(wire)
 			idx, path, ln := -1, "", 0
@@ -560,6 +663,9 @@ func (f *wtFam) finish(w *World, res *Result) {
 				gotDesc := "nothing"
 				if bad >= 0 && bad < n {
 					gotDesc = fmt.Sprintf("binary=%v len=%d err=%q", f.got[bad].Binary, len(f.got[bad].Data), f.got[bad].Err)
+				}
+				if len(sc.Peer) > 0 {
+					big = "shared-buffer-pool"
 				}
 				l13.add("round-trip", big, fmt.Sprintf("%d messages written, %d read; message %d (%s, binary=%v, %d bytes, write buffer %d) was read as %s", len(f.written), n, i, path, sc.Msgs[i].Binary, ln, sc.effWriteBuf(), gotDesc))
 			}
@@ -772,6 +878,46 @@ func GenWT(prop string, seed uint64, thorough bool) *Scenario {
 	case "tot":
 		genTotal(g, ws, nmsg)
 	}
+	if mode == "rt" {
+		switch {
+		case g.p(0.25):
+			// a second connection on the same pool (a pool makes sense only when it is shared)
+			ws.Pool = true
+			n := g.rng(1, 3)
+			for i := 0; i < n; i++ {
+				m := WTMsgOp{Binary: g.p(0.5), Len: length(), Path: g.picks("WriteMessage", "NextWriter", "Prepared", "WriteString", "NextWriter")}
+				if m.Len > 9000 {
+					m.Len = g.rng(0, 9000)
+				}
+				if g.p(0.6) {
+					m.Chunks = []int{g.pick(1, 3, 100, wb-1, wb, wb+1), g.pick(1, 7, 64, 4096)}
+					for k := range m.Chunks {
+						if m.Chunks[k] < 1 {
+							m.Chunks[k] = 1
+						}
+					}
+				}
+				ws.Peer = append(ws.Peer, m)
+			}
+		case prop == "C14" && g.p(0.2):
+			// the writer's stream fails somewhere inside the frames (enumerated by the run index), later writes follow
+			total := 0
+			for _, m := range ws.Msgs {
+				total += m.Len + 9
+			}
+			ws.WFailAt = 1 + genRunIndex%int64(total+1)
+			ws.WFailKind = g.picks("reset", "timeout")
+			ws.WFailOnce = ws.WFailKind == "timeout" && g.p(0.7)
+			if len(ws.Msgs) < 3 {
+				ws.Msgs = append(ws.Msgs, WTMsgOp{Binary: g.p(0.5), Len: g.pick(0, 5, 300), Path: g.picks("Prepared", "WriteMessage", "NextWriter")}, WTMsgOp{Len: g.pick(1, 200), Path: g.picks("Prepared", "Prepared", "WriteMessage")})
+			}
+		}
+	}
+	ws.EOFWithData = g.p(0.3)
+	if mode == "tot" && g.p(0.3) {
+		ws.UseReadMessage = true
+		ws.StaleRead = false
+	}
 	sc.WT = ws
 	sc.Policy, sc.HotFuncs = genPolicy(g, nil, 2000)
 	sc.MaxSteps = 400000
@@ -899,8 +1045,20 @@ func shrinkWT(sc *Scenario) []shrinkCand {
 	if len(ws.Frag) > 0 {
 		add("no-frag", func(c *Scenario) bool { c.WT.Frag = nil; return true })
 	}
-	if ws.Pool {
+	if ws.Pool && len(ws.Peer) == 0 {
 		add("no-pool", func(c *Scenario) bool { c.WT.Pool = false; return true })
+	}
+	for i := range ws.Peer {
+		i := i
+		if len(ws.Peer) > 1 {
+			add("drop-peer-message", func(c *Scenario) bool { c.WT.Peer = append(c.WT.Peer[:i], c.WT.Peer[i+1:]...); return true })
+		}
+	}
+	if ws.EOFWithData {
+		add("plain-eof", func(c *Scenario) bool { c.WT.EOFWithData = false; return true })
+	}
+	if ws.UseReadMessage {
+		add("next-reader", func(c *Scenario) bool { c.WT.UseReadMessage = false; return true })
 	}
 	if ws.ReadBuf != 0 {
 		add("default-readbuf", func(c *Scenario) bool { c.WT.ReadBuf = 0; return true })
